@@ -330,6 +330,23 @@ func chunked(b []byte, seed int) []byte {
 	return out.Bytes()
 }
 
+// pathOf is the path-and-query the client sends (and the origin must see unchanged).
+func pathOf(id string, it *item) string {
+	switch it.n("pk", 0) {
+	case 1:
+		return "/p" + id + "/./a/../b/index.html?rev=3"
+	case 2:
+		return "/p" + id + "//double//slash/"
+	case 3:
+		return "/p" + id + "/enc%2Fslash%20sp;param=1?a=b&a=c&empty=&u=%C3%A9"
+	case 4:
+		return "/p" + id + "/../../up?x=/../y"
+	case 5:
+		return "/p" + id + "/a+b/~t/(1)!$,'*?k=v+w&sub=a%26b%3Dc"
+	}
+	return "/p" + id + "?q=" + id + "&x=%41+b"
+}
+
 func (e *Ex) buildRequest(id string, it *item) []byte {
 	var b bytes.Buffer
 	method := it.s("m", "GET")
@@ -337,7 +354,7 @@ func (e *Ex) buildRequest(id string, it *item) []byte {
 	if it.s("sec", "0") == "1" {
 		host = e.originTLSAddr
 	}
-	path := "/p" + id + "?q=" + id + "&x=%41+b"
+	path := pathOf(id, it)
 	target := path
 	switch it.s("tf", "origin") {
 	case "abs":
@@ -768,7 +785,8 @@ func (e *Ex) runScenario() core.Result {
 			}
 		}
 	} else {
-		for _, id := range e.ids {
+		halfSent := 0
+		for idx, id := range e.ids {
 			if !alive {
 				break
 			}
@@ -780,7 +798,23 @@ func (e *Ex) runScenario() core.Result {
 			case "x":
 				cc.c.SetWriteDeadline(time.Now().Add(ioTimeout))
 				req := e.buildRequest(id, it)
-				if e.conn["mode"] == "dribble" {
+				if e.conn["mode"] == "half" {
+					// this request's remainder plus the first half of the next one in ONE write; the
+					// client then waits for this response before sending the rest of the next request
+					out := req[halfSent:]
+					halfSent = 0
+					if idx+1 < len(e.ids) {
+						if nx := w.items[e.ids[idx+1]]; nx.kind == "x" {
+							nreq := e.buildRequest(e.ids[idx+1], nx)
+							halfSent = len(nreq) / 2
+							out = append(append([]byte{}, out...), nreq[:halfSent]...)
+						}
+					}
+					if _, err := cc.c.Write(out); err != nil {
+						alive = false
+						continue
+					}
+				} else if e.conn["mode"] == "dribble" {
 					for i := 0; i < len(req); i += 7 {
 						j := i + 7
 						if j > len(req) {
@@ -1039,7 +1073,7 @@ func (e *Ex) report(open bool, left int, probeID string) core.Result {
 			if r.upMethod != it.s("m", "GET") {
 				failf("c01:method", "exchange %d: origin saw method %s, client sent %s", idx, r.upMethod, it.s("m", "GET"))
 			}
-			if want := "/p" + id + "?q=" + id + "&x=%41+b"; r.upURI != want {
+			if want := pathOf(id, it); r.upURI != want {
 				failf("c01:target", "exchange %d: origin saw %q, client sent %q", idx, r.upURI, want)
 			}
 			if r.upBody != wantBody {
